@@ -90,6 +90,34 @@ pub fn compare_ops(exp: &[Operation], act: &[Operation], opts: Opts, what: &str)
     Ok(())
 }
 
+/// one operation whose operand is nested `levels.len()` deep (see c01::DeepCase)
+#[derive(Clone, Debug, Serialize, Deserialize)]
+pub struct DeepCase {
+    pub levels: Vec<u8>,
+}
+
+pub fn check_deep(case: &DeepCase, tolerate: bool) -> Verdict {
+    let depth = case.levels.len();
+    let ops = vec![
+        Op { operator: "q".into(), operands: vec![] },
+        Op { operator: "DP".into(), operands: vec![AObj::name("T"), super::c01::build_deep(&case.levels)] },
+        Op { operator: "Q".into(), operands: vec![] },
+    ];
+    match check(&Case { ops }) {
+        Ok(mut rep) => {
+            rep.label_if(depth >= 16, "depth>=16");
+            rep.nontrivial = depth >= 8;
+            Ok(rep)
+        }
+        Err(_) if tolerate && depth >= super::c01::NESTING_LIMIT => {
+            let mut rep = CaseReport::new();
+            rep.exclude("known:C14-nesting-limit");
+            Ok(rep)
+        }
+        Err(v) => Err(v),
+    }
+}
+
 pub fn check(case: &Case) -> Verdict {
     let mut rep = CaseReport::new();
     let mut ops = case.ops.clone();
@@ -140,6 +168,22 @@ pub struct InlineImage {
     pub abbreviated_keys: bool,
     pub data_seed: B,
     pub extra_key: bool,
+    /// a further entry whose key has arbitrary bytes (written with #XX escapes where the name syntax needs them);
+    /// empty = none
+    #[serde(default)]
+    pub hostile_key: B,
+}
+
+fn escaped_name(n: &[u8]) -> Vec<u8> {
+    let mut out = vec![b'/'];
+    for &c in n {
+        if (33..=126).contains(&c) && !b"()<>[]{}/%#".contains(&c) {
+            out.push(c);
+        } else {
+            out.extend_from_slice(format!("#{:02X}", c).as_bytes());
+        }
+    }
+    out
 }
 
 #[derive(Clone, Debug, Serialize, Deserialize)]
@@ -177,6 +221,11 @@ fn render_image(i: &InlineImage, out: &mut Vec<u8>) {
     out.extend_from_slice(format!("BI /{} {} /{} {} /{} /{} /{} {}", kw, i.w, kh, i.h, kcs, cs, kbpc, i.bpc).as_bytes());
     if i.extra_key {
         out.extend_from_slice(b" /I true");
+    }
+    if !i.hostile_key.0.is_empty() {
+        out.push(b' ');
+        out.extend_from_slice(&escaped_name(&i.hostile_key.0));
+        out.extend_from_slice(b" 7");
     }
     out.extend_from_slice(b"\nID\n");
     let n = image_len(i);
@@ -235,6 +284,12 @@ pub fn check_images(case: &ImageCase) -> Verdict {
                 if !ok {
                     return Err(viol!("decode-error", "inline image decoded as {:?}", op));
                 }
+                if !i.hostile_key.0.is_empty() {
+                    let has = matches!(&op.operands[0], Object::Stream(s) if s.dict.get(&i.hostile_key.0).map(|v| v.as_i64().ok() == Some(7)).unwrap_or(false));
+                    if !has {
+                        return Err(viol!("decode-error", "inline image entry with key {:?} not found after decoding: {:?}", i.hostile_key, op));
+                    }
+                }
             }
         }
     }
@@ -245,6 +300,7 @@ pub fn check_images(case: &ImageCase) -> Verdict {
         viol!("inline-image-not-fixpoint", "{}\nre-encoded: {}", v.detail, super::common::show_bytes(&re, 800))
     })?;
     rep.label_if(n_img >= 2, "two-or-more-images");
+    rep.label_if(case.pieces.iter().any(|p| matches!(p, Piece::Image(i) if !i.hostile_key.0.is_empty())), "image-key-needing-escapes");
     rep.label_if(case.pieces.iter().any(|p| matches!(p, Piece::Image(i) if !i.abbreviated_keys)), "full-keys");
     rep.label_if(case.pieces.iter().any(|p| matches!(p, Piece::Image(i) if i.bpc < 8)), "bpc<8");
     rep.label_if(case.pieces.iter().any(|p| matches!(p, Piece::Image(i) if i.bpc == 16)), "bpc16");
@@ -253,8 +309,10 @@ pub fn check_images(case: &ImageCase) -> Verdict {
 }
 
 pub fn image_strategy() -> BoxedStrategy<InlineImage> {
-    (1u8..=8, 1u8..=8, prop_oneof![Just(1u8), Just(2u8), Just(4u8), Just(8u8), Just(16u8)], 0u8..8, any::<bool>(), vec(any::<u8>(), 0..12), any::<bool>())
-        .prop_map(|(w, h, bpc, cs, abbreviated_keys, d, extra_key)| InlineImage { w, h, bpc, cs, abbreviated_keys, data_seed: B(d), extra_key })
+    // a hostile key never equals one of the keys the decoder interprets
+    let hostile = prop_oneof![3 => Just(vec![]), 2 => vec(prop_oneof![Just(b' '), Just(b'#'), Just(b'/'), Just(b'('), Just(b'%'), Just(0xe9u8), Just(b'\n'), Just(b'Z'), Just(b'q')], 2..6)];
+    (1u8..=8, 1u8..=8, prop_oneof![Just(1u8), Just(2u8), Just(4u8), Just(8u8), Just(16u8)], 0u8..8, any::<bool>(), vec(any::<u8>(), 0..12), any::<bool>(), hostile)
+        .prop_map(|(w, h, bpc, cs, abbreviated_keys, d, extra_key, hk)| InlineImage { w, h, bpc, cs, abbreviated_keys, data_seed: B(d), extra_key, hostile_key: B(hk) })
         .boxed()
 }
 
@@ -294,7 +352,7 @@ fn obj_opts(run: &Run) -> ObjOpts {
 }
 
 pub fn run(run: &mut Run) {
-    run.rule = "cases: sequences of 0..12 operations, operator from ISO 32000-1 Table 51 or random over letters,*,',\" with 0..6 direct operands of every kind nested (no references, no streams), hostile bytes; oracle decode(encode(ops)) = ops under CANON. Inline images: hand-rendered content with valid BI..ID..EI images (W,H 1..8, BPC 1/2/4/8/16, every colour-space name the parser lists, abbreviated and full keys, data containing 'EI') interleaved with ordinary operations; oracle: decode -> encode -> decode is a fixpoint and every image has the rendered data length. Exhaustive: all 65 536 byte pairs as literal string, hex string, name, key. non-trivial = >=2 operations, >=2 operands and (a nested operand or a hostile byte) / >=1 image among >=2 pieces; distinct by case hash.".into();
+    run.rule = "cases: sequences of 0..12 operations, operator from ISO 32000-1 Table 51 or random over letters,*,',\" with 0..6 direct operands of every kind nested (no references, no streams), hostile bytes; oracle decode(encode(ops)) = ops under CANON. Campaign 'deep-operands': one operation with an operand nested 1..160 levels, same oracle. Inline images: hand-rendered content with valid BI..ID..EI images (W,H 1..8, BPC 1/2/4/8/16, every colour-space name the parser lists, abbreviated and full keys, data containing 'EI') interleaved with ordinary operations; oracle: decode -> encode -> decode is a fixpoint and every image has the rendered data length. Exhaustive: all 65 536 byte pairs as literal string, hex string, name, key. non-trivial = >=2 operations, >=2 operands and (a nested operand or a hostile byte) / >=1 image among >=2 pieces; distinct by case hash.".into();
     run.assumptions = vec![
         "operators beginning with true/false/null and BI outside an inline image are outside the domain (they lex as operands); removed and counted".into(),
     ];
@@ -302,6 +360,9 @@ pub fn run(run: &mut Run) {
     let opts = obj_opts(run);
     let n = run.tier.pick(30_000, 1_000_000);
     run.campaign("encode-decode", || vec(op_strategy(opts), 0..12).prop_map(|ops| Case { ops }), n, check, |_c, _v| None);
+    // operand nesting depth as a generated quantity; from 64 levels on the parser refuses (known finding C14-nesting-limit)
+    let tolerate = run.finding_open("C14-nesting-limit");
+    run.campaign("deep-operands", || vec(0u8..2, 1..160).prop_map(|levels| DeepCase { levels }), run.tier.pick(600, 10_000), move |c| check_deep(c, tolerate), |_c, _v| None);
     let n2 = run.tier.pick(10_000, 300_000);
     let img_on = !run.finding_open("C14-inline-image-encode");
     if img_on {
@@ -329,6 +390,7 @@ pub fn replay(file: &Value) -> Result<Verdict, String> {
     match file.get("campaign").and_then(|c| c.as_str()).unwrap_or("encode-decode") {
         "inline-images" => Ok(check_images(&replay_case::<ImageCase>(file)?)),
         "byte-pairs" => Ok(check_pairs(&replay_case::<PairCase>(file)?)),
+        "deep-operands" => Ok(check_deep(&replay_case::<DeepCase>(file)?, false)),
         _ => Ok(check(&replay_case::<Case>(file)?)),
     }
 }
